@@ -100,7 +100,6 @@ class Execution:
         self.divergence = None
         self.idents = {}
         self.switches = 0
-        self._codecache = {}
 
     # -- helpers ------------------------------------------------------------------------------
     def tid_of_current_thread(self):
@@ -173,16 +172,11 @@ class Execution:
 
     # -- thread bodies ----------------------------------------------------------------------------------
     def _trace(self, tid):
-        cache = self._codecache
         is_point = self.is_point
 
         def tracer(frame, event, arg):
             if event == 'call':
-                code = frame.f_code
-                lab = cache.get(code)
-                if lab is None:
-                    lab = is_point(code) or False
-                    cache[code] = lab
+                lab = is_point(frame)
                 if lab:
                     self.point(tid, lab)
             return None
@@ -205,7 +199,10 @@ class Execution:
         finally:
             sys.settrace(None)
         if not self.done.is_set():
-            self.finish(tid)
+            try:
+                self.finish(tid)
+            except Divergence:
+                self.done.set()
 
     def run(self):
         CoopLock.execution = self
@@ -237,20 +234,26 @@ def explore(make_bodies, is_point, bound, check, first_level=None, max_execution
     Returns dict(executions, points_max, problems=[(prefix, problem)], capped).
     """
     stats = {'executions': 0, 'points_total': 0, 'points_max': 0, 'problems': [], 'capped': False,
-             'distinct_results': set()}
+             'distinct_results': set(), 'divergent_replays': 0, 'unrealisable_prefixes': 0}
     stack = [()]
     while stack:
         prefix = stack.pop()
         if max_executions and stats['executions'] >= max_executions:
             stats['capped'] = True
             break
-        bodies, ctx = make_bodies()
-        x = Execution(bodies, prefix, is_point).run()
+        # A prefix that cannot be replayed (the library iterates sets hashed by id(), so the number of call
+        # events can differ by a few between two fresh object graphs) is retried, then counted and skipped.
+        for attempt in range(3):
+            bodies, ctx = make_bodies()
+            x = Execution(bodies, prefix, is_point).run()
+            if x.divergence is None:
+                break
+            stats['divergent_replays'] += 1
         stats['executions'] += 1
         stats['points_total'] += len(x.points)
         stats['points_max'] = max(stats['points_max'], len(x.points))
         if x.divergence is not None:
-            stats['problems'].append((prefix, 'HARNESS divergence while replaying a prefix: %s' % x.divergence))
+            stats['unrealisable_prefixes'] += 1
             continue
         probs = []
         if getattr(x, 'hang', False):
